@@ -27,6 +27,9 @@ struct PE : decltype(au::Kelvins{} * au::mag<1000>() / au::mag<999>()) {};
 struct PF : decltype(au::Kelvins{} * au::mag<3>() / au::mag<7>()) { static constexpr auto origin() { return (au::kelvins / au::mag<6>())(-7); } };
 struct PG : decltype(au::Kelvins{} * au::mag<2>() / au::mag<5>()) { static constexpr auto origin() { return (au::kelvins / au::mag<4>())(5); } };
 struct PH : au::Kelvins { static constexpr auto origin() { return (au::kelvins / au::mag<4>())(5); } };
+// origins written in different units whose raw numbers order the other way round than the origins themselves
+struct PI : decltype(au::Kelvins{} / au::mag<2>()) { static constexpr auto origin() { return au::milli(au::kelvins)(5000); } };   // 5 K, raw 5000
+struct PJ : decltype(au::Kelvins{} * au::mag<2>()) { static constexpr auto origin() { return au::kelvins(7); } };                 // 7 K, raw 7
 }
 namespace c10 {
 inline std::string origin_json(au::Zero) { return "{\"v\":0,\"mag\":[]}"; }
@@ -61,8 +64,10 @@ def alphabet(tier):
            pt("PC", "gen::PC", Fr(2, 5), Fr(27315, 100)), pt("PD", "gen::PD", Fr(5, 9), Fr(5, 27)),
            pt("PE", "gen::PE", Fr(1000, 999), 0), pt("PF", "gen::PF", Fr(3, 7), Fr(-7, 6)),
            pt("PG", "gen::PG", Fr(2, 5), Fr(5, 4)), pt("PH", "gen::PH", 1, Fr(5, 4))]
+    gen += [pt("PI", "gen::PI", Fr(1, 2), 5), pt("PJ", "gen::PJ", 2, 7)]
+    lib += [model.prefixed(P["Kilo"], C)]
     if tier == "quick":
-        return lib[:6] + gen[:6], lib[:6]
+        return lib[:6] + [lib[6], lib[8]] + gen[:6] + gen[8:], lib[:6]
     return lib + gen, lib[:6]
 
 
